@@ -42,7 +42,27 @@ type clientOp struct {
 	Op   string `json:"op"` // put putdiff getbytes getfile get
 	ID   string `json:"id"`
 	Data string `json:"data,omitempty"`
-	R    int    `json:"r,omitempty"` // putdiff: the source delivers other bytes from offset R on, on the second pass
+	R    int    `json:"r,omitempty"` // putdiff: the source delivers other bytes from offset R on, on the second pass; putat: the offset the source is at when Put gets it
+}
+
+// clientState is what one client of a schedule carries from call to call: the io.ReadSeeker of its
+// last Put (op "putagain" hands the very same reader, left wherever that Put left it, to Put again).
+type clientState struct {
+	last     *bytes.Reader
+	lastData []byte
+}
+
+// scribble is what a caller is free to do with a slice the cache returned to it (or with the data
+// it passed to PutBytes once the call is over): overwrite every byte in place and use the spare
+// capacity.  Nothing the cache does or returns later may depend on that memory.
+func scribble(b []byte) {
+	for i := range b {
+		b[i] ^= 0xA5
+	}
+	spare := b[len(b):cap(b)]
+	for i := range spare {
+		spare[i] = 0x5A
+	}
 }
 
 type request struct {
@@ -63,6 +83,8 @@ type request struct {
 	Proc     int   `json:"proc,omitempty"`
 	// Shared: the clients / goroutines use ONE *cache.Cache value instead of one each
 	Shared bool `json:"shared,omitempty"`
+	// Handles: per client the index of the *cache.Cache value it uses (clients with equal indices share one)
+	Handles []int `json:"handles,omitempty"`
 	// API selects the entry point of "put": put (default) | putbytes | putnoverify
 	API string `json:"api,omitempty"`
 	// history: the steps run one after the other; Reuse: on ONE *cache.Cache value (else a fresh one per step)
@@ -373,12 +395,16 @@ func putCall(c *cache.Cache, st *histStep) (sr stepRes) {
 		var err error
 		switch st.API {
 		case "putbytes":
-			err = c.PutBytes(id, src.data)
+			mine := append(make([]byte, 0, len(src.data)+16), src.data...)
+			err = c.PutBytes(id, mine)
+			scribble(mine) // the data belongs to the caller again once PutBytes has returned
 			out, size = sha256.Sum256(src.data), int64(len(src.data))
 		case "putnoverify":
 			out, size, err = c.PutNoVerify(id, src)
 		case "getbytes":
-			_, _, err = c.GetBytes(id)
+			var b []byte
+			b, _, err = c.GetBytes(id)
+			scribble(b)
 		case "getfile":
 			_, _, err = c.GetFile(id)
 		case "get":
@@ -531,7 +557,9 @@ func lookup(c *cache.Cache, idhex string) (lr lookupRes) {
 		if sha256.Sum256(b) != e.OutputID {
 			lr.Oracle = append(lr.Oracle, fmt.Sprintf("getbytes-checksum: %d bytes returned whose SHA-256 is not the reported OutputID %x", len(b), e.OutputID))
 		}
-		return "F " + showBytes(b) + " " + showEntry(e)
+		r := "F " + showBytes(b) + " " + showEntry(e)
+		scribble(b) // the returned slice is the caller's
+		return r
 	})
 	lr.GetFile = probed("GetFile", func() string {
 		file, e, err := c.GetFile(id)
@@ -561,7 +589,10 @@ func doLookups(req *request) (resp response) {
 	return
 }
 
-func runClientOp(c *cache.Cache, o clientOp) (s string) {
+func runClientOp(c *cache.Cache, o clientOp, cs *clientState) (s string) {
+	if cs == nil {
+		cs = &clientState{}
+	}
 	defer func() {
 		if v := recover(); v != nil {
 			s = "PANIC " + fmt.Sprint(v)
@@ -569,16 +600,33 @@ func runClientOp(c *cache.Cache, o clientOp) (s string) {
 	}()
 	id := actionID(o.ID)
 	switch o.Op {
-	case "put":
+	case "put", "putat", "putagain":
 		d := unhex(o.Data)
-		out, n, err := c.Put(id, bytes.NewReader(d))
+		rd := bytes.NewReader(d)
+		switch o.Op {
+		case "putat":
+			// the source is somewhere else than at its start when Put gets it
+			rd.Seek(int64(min(max(o.R, 0), len(d))), io.SeekStart)
+		case "putagain":
+			// the reader this client's previous Put was given (and left at its end), when it carries these bytes
+			if cs.last != nil && bytes.Equal(cs.lastData, d) {
+				rd = cs.last
+			} else {
+				rd.Seek(0, io.SeekEnd)
+			}
+		}
+		cs.last, cs.lastData = rd, d
+		out, n, err := c.Put(id, rd)
 		if err != nil {
 			return "PUTFAILED"
 		}
 		return fmt.Sprintf("PUTOK %s %d", hex.EncodeToString(out[:]), n)
 	case "putbytes":
 		d := unhex(o.Data)
-		if err := c.PutBytes(id, d); err != nil {
+		mine := append(make([]byte, 0, len(d)+16), d...)
+		err := c.PutBytes(id, mine)
+		scribble(mine)
+		if err != nil {
 			return "PUTFAILED"
 		}
 		out := sha256.Sum256(d)
@@ -602,7 +650,9 @@ func runClientOp(c *cache.Cache, o clientOp) (s string) {
 		if err != nil {
 			return "NF"
 		}
-		return "F " + showBytes(b) + " " + showEntry(e)
+		r := "F " + showBytes(b) + " " + showEntry(e)
+		scribble(b) // the returned slice is the caller's
+		return r
 	case "getfile":
 		file, e, err := c.GetFile(id)
 		if err != nil {
@@ -627,9 +677,16 @@ func doConc(req *request) (resp response) {
 	if req.Shared {
 		one = openCache() // goroutines of one program sharing one handle
 	}
+	byIndex := map[int]*cache.Cache{}
 	for i := range req.Clients {
 		if req.Shared {
 			caches[i] = one
+		} else if len(req.Handles) == len(req.Clients) {
+			// clients with equal handle indices share one Cache value
+			if byIndex[req.Handles[i]] == nil {
+				byIndex[req.Handles[i]] = openCache()
+			}
+			caches[i] = byIndex[req.Handles[i]]
 		} else {
 			caches[i] = openCache() // each client its own Cache value, as separate users of one directory
 		}
@@ -639,9 +696,10 @@ func doConc(req *request) (resp response) {
 		i, ops := i, ops
 		c := caches[i]
 		fns = append(fns, func() {
+			cs := &clientState{}
 			for _, o := range ops {
 				st := ctlCount()
-				r := runClientOp(c, o)
+				r := runClientOp(c, o, cs)
 				results[i] = append(results[i], r)
 				spans[i] = append(spans[i], [2]int{st, ctlCount()})
 			}
@@ -749,8 +807,39 @@ func doStress(req *request) (resp response) {
 					} else {
 						d = payload(idx, r.Intn(3), sizes[r.Intn(len(sizes))])
 					}
-					if err := c.PutBytes(id, d); err != nil {
-						viol(fmt.Sprintf("put-failed: PutBytes(id%d) failed without any injected fault: %v", idx, err))
+					var err error
+					how := "PutBytes"
+					switch r.Intn(4) {
+					case 0:
+						// a source that is somewhere else than at its start when Put gets it
+						how = "Put (source at an arbitrary offset)"
+						rd := bytes.NewReader(d)
+						rd.Seek(int64(r.Intn(len(d)+1)), io.SeekStart)
+						var out cache.OutputID
+						var n int64
+						out, n, err = c.Put(id, rd)
+						if err == nil && (out != sha256.Sum256(d) || n != int64(len(d))) {
+							viol(fmt.Sprintf("put-result: Put(id%d) of %d bytes from a source that was not at its start returned OutputID %x and size %d, which are not those of the data", idx, len(d), out[:6], n))
+						}
+					case 1:
+						// the same reader given to Put twice (left at its end by the first call)
+						how = "Put (reader used for a second Put)"
+						rd := bytes.NewReader(d)
+						if _, _, err = c.Put(id, rd); err == nil {
+							var out cache.OutputID
+							var n int64
+							out, n, err = c.Put(id, rd)
+							if err == nil && (out != sha256.Sum256(d) || n != int64(len(d))) {
+								viol(fmt.Sprintf("put-result: the second Put(id%d) from one reader of %d bytes returned OutputID %x and size %d, which are not those of the data", idx, len(d), out[:6], n))
+							}
+						}
+					default:
+						mine := append(make([]byte, 0, len(d)+8), d...)
+						err = c.PutBytes(id, mine)
+						scribble(mine)
+					}
+					if err != nil {
+						viol(fmt.Sprintf("put-failed: %s(id%d) failed without any injected fault: %v", how, idx, err))
 					} else {
 						count(fmt.Sprintf("stored-id%d", idx))
 					}
@@ -775,6 +864,7 @@ func doStress(req *request) (resp response) {
 					if !checkPayload(idx, b) {
 						viol(fmt.Sprintf("foreign-data: GetBytes(id%d) returned bytes never stored for that id (%d bytes, head %q)", idx, len(b), b[:min(len(b), 24)]))
 					}
+					scribble(b) // the returned slice is the caller's to reuse
 				case 2:
 					file, e, err := c.GetFile(id)
 					if err != nil {
@@ -850,7 +940,7 @@ func main() {
 						// one API call on the handle opened by "open", with the operations it performed
 						ctlReset(nil)
 						var r string
-						resp.FdLeak = fdProbe(func() { r = runClientOp(curCache, clientOp{Op: req.Reader, ID: req.ID, Data: req.Data}) })
+						resp.FdLeak = fdProbe(func() { r = runClientOp(curCache, clientOp{Op: req.Reader, ID: req.ID, Data: req.Data}, nil) })
 						resp.Results = [][]string{{r}}
 						resp.Log = ctlLog()
 						ctlReset(nil)
